@@ -314,7 +314,10 @@ def real_oracle(args, notes=None):
     qc = QuantumCircuit(3)
     qc.h(0); qc.cx(0, 1); qc.rzz(0.4, 1, 2); qc.rx(0.3, 2)  # noqa: E702
     H = MPO.ising(3, 1.0, 0.6)
-    st = MPS(3, state="x+")
+    def mkstate():
+        return MPS(3, state="basis", basis_string="100") if args.get("asym") else MPS(3, state="x+")
+
+    st = mkstate()
     ntraj = 4
 
     def mk():
@@ -349,6 +352,12 @@ def real_oracle(args, notes=None):
             if seeded and kind != "weak" and notes is not None:
                 notes.append(f"{kind}: a trajectory generator was created with a fixed seed {seeded[:2]} (OS entropy in the model)")
     after = [snapshot(x) for x in (op, nm, st)]
+    from drivers import dense as _dense
+
+    vb = _dense.mps_dense(MPS(3, tensors=[t.copy() for t in before[2]], physical_dimensions=[2] * 3))
+    va = _dense.mps_dense(st)
+    if abs(abs(np.vdot(vb, va)) - np.linalg.norm(vb) * np.linalg.norm(va)) > 1e-9 * np.linalg.norm(vb) * max(np.linalg.norm(va), 1e-300):
+        return f"{kind}: the initial state passed in represents another state after the runs (overlap {abs(np.vdot(vb, va)):.6f} with what was passed)"
     names = ("operator", "noise model", "initial state")
     for nme, b, a in zip(names, before, after):
         if nme == "initial state":
@@ -359,7 +368,7 @@ def real_oracle(args, notes=None):
     if kind != "weak":
         simulator.run(st, op, p, None, parallel=False)
         fresh = mk()
-        simulator.run(MPS(3, state="x+"), op, fresh, None, parallel=False)
+        simulator.run(mkstate(), op, fresh, None, parallel=False)
         for o1, o2 in zip(p.observables, fresh.observables):
             if np.max(np.abs(np.asarray(o1.results) - np.asarray(o2.results))) > 1e-9:
                 return f"{kind}: noise-free results of the reused parameter object differ from those of a fresh object"
@@ -375,6 +384,7 @@ def real_oracle(args, notes=None):
 def search(ctx):
     plan = [dict(kind=k, hist=h) for k in ("strong", "analog", "weak", "mcwf") for h in ([True], [False, True], [True, False])]
     plan.append(dict(kind="analog", hist=[True], order=1))
+    plan += [dict(kind="mcwf", hist=[True], asym=True), dict(kind="mcwf", hist=[False, True, False], asym=True), dict(kind="analog", hist=[True, False], asym=True), dict(kind="strong", hist=[False], asym=True)]
     if not ctx.quick:
         for _ in range(20):
             plan.append(dict(kind=str(ctx.rng.choice(["strong", "analog", "weak"])), hist=[bool(b) for b in ctx.rng.integers(0, 2, size=3)],
